@@ -276,6 +276,10 @@ def parsePosts (s : String) : Option (List (Nat × Int × Nat)) :=
 def stepLine (s : Sys) (toks : List String) : Sys × List String :=
   match toks with
   | "life" :: "begin" :: _ :: rest =>
+    -- `kt=1` (a ring with a kernel thread, IORING_SETUP_SQPOLL) changes nothing here: the
+    -- deterministic simulated thread takes the published submissions at every `enter` and is idle
+    -- (NEED_WAKEUP) in between, which a10 must answer with SQ_WAKEUP — so "the next enter submits
+    -- everything queued" is the specification in both configurations.
     match findNat "sq" rest, findNat "cq" rest, findNat "cqh" rest with
     | some sq, some cq, some cqh => ({ sqLen := sq, cqLen := cq, cqHead := cqh }, [])
     | _, _, _ => (s, ["bad-op"])
